@@ -50,7 +50,49 @@ def features(case, root):
             conds = [refsem.canon_node(c) for c, _ in n[1] if c[0] == 'Ref']
             if len(conds) != len(set(conds)):
                 feats.add('condsum_shared_condition')
+        if n[0] == 'LinUtil':
+            free = [b[1] for b, _ in n[1] if b[5] == 0]
+            if len(free) != len(set(free)):
+                feats.add('linutil_repeated_beta')
     return feats
+
+
+VALUE_ONLY_OPS = {'Gt', 'Ge', 'Lt', 'Le', 'Ne'}
+
+
+def shared_under_value_only_context(case, root):
+    """Shared sub-trees that are reached both through a position the engine differentiates and
+    below an operand the engine evaluates value-only (comparison operands except Equal, logit
+    choice / availabilities)."""
+    shared = case['shared']
+    seen = set()
+    vo_refs, diff_refs = set(), set()
+
+    def visit(node, vo):
+        k = node[0]
+        if k == 'Ref':
+            (vo_refs if vo else diff_refs).add(node[1])
+            if (node[1], vo) in seen:
+                return
+            seen.add((node[1], vo))
+            visit(shared[node[1]], vo)
+            return
+        if k in VALUE_ONLY_OPS:
+            visit(node[1], True)
+            visit(node[2], True)
+            return
+        if k == 'LogLogit':
+            visit(node[1], True)
+            for _, u, av in node[2]:
+                visit(u, vo)
+                if av is not None:
+                    visit(av, True)
+            return
+        for c in refsem.children(node):
+            visit(c, vo)
+
+    visit(root, False)
+    return vo_refs & diff_refs
 
 
 def classify(case, root):
